@@ -57,7 +57,12 @@ struct ProjVis {
 		case 0: { auto&& pv = v.template member_cast<int>(&P::b); check_addr(K, pv, m, [&](L k) { return static_cast<void const*>(&src(k).b); });
 			if constexpr(is_mutable_view<V>) { L k = g->below(N); m.unlin(k, ix); brk(pv, ix) = 4242; if(src(k).b != 4242) violation(K + "write-through", "a write through member_cast did not land in the source element"); } break; }
 		case 1: { auto&& pv = std::as_const(v).template member_cast<double>(&P::a); check_addr(K, pv, m, [&](L k) { return static_cast<void const*>(&src(k).a); }); break; }
-		case 2: { auto&& pv = v.element_transformed(&P::c); if(tuple_to_vec(pv.sizes()) != m.size) violation(K + "extents", "sizes differ"); for(L k = 0; k < N; ++k) { m.unlin(k, ix); if(brk(pv, ix) != src(k).c) violation(K + "value", "element_transformed(member) value differs"); src(k).c += 1000; if(brk(pv, ix) != src(k).c) violation(K + "not-lazy", "element_transformed does not reflect a later change of the source element"); } backward_walk(K, pv, m, [&](L k) { return src(k).c; }); break; }
+		case 2: { auto&& pv = v.element_transformed(&P::c); if(tuple_to_vec(pv.sizes()) != m.size) violation(K + "extents", "sizes differ"); for(L k = 0; k < N; ++k) { m.unlin(k, ix); if(brk(pv, ix) != src(k).c) violation(K + "value", "element_transformed(member) value differs"); src(k).c += 1000; if(brk(pv, ix) != src(k).c) violation(K + "not-lazy", "element_transformed does not reflect a later change of the source element"); } backward_walk(K, pv, m, [&](L k) { return src(k).c; });
+			if constexpr(is_mutable_view<V> && !std::is_const_v<std::remove_reference_t<V>>) { L const k = g->below(N); m.unlin(k, ix);  // writes through, from a named and from an EXPIRING mutable source alike (a view is reference-like)
+				brk(pv, ix) = 4343; if(src(k).c != 4343) violation(K + "write-through", "a write through element_transformed(&P::c) did not land in the source element");
+				auto&& pr = std::move(v).element_transformed(&P::c); using PR = decltype(brk(pr, ix)); if constexpr(std::is_assignable_v<PR, int>) { brk(pr, ix) = 4344; if(src(k).c != 4344) violation(K + "write-through(expiring source)", "a write through element_transformed(&P::c) of an expiring mutable view did not land in the source element"); }
+				else { violation(K + "expiring-source-not-writable", "element_transformed(&P::c) of an expiring mutable view is read-only"); } count("transformed-write-through"); }
+			break; }
 		case 3: { auto f = [](P const& p) { return long(p.b) * 2 + 1; }; auto&& pv = std::as_const(v).element_transformed(decltype(f)(f)); if(tuple_to_vec(pv.sizes()) != m.size) violation(K + "extents", "sizes differ");
 			for(L k = 0; k < N; ++k) { m.unlin(k, ix); if(brk(pv, ix) != f(src(k))) violation(K + "value", "element_transformed(f) != f(source element)"); src(k).b -= 7; if(brk(pv, ix) != f(src(k))) violation(K + "not-lazy", "element_transformed is not evaluated at access time"); }
 			multi::array<long, D> C(pv); for(L k = 0; k < N; ++k) if(C.data_elements()[k] != f(src(k))) violation(K + "array-from-projection", "array constructed from the transformed view differs element-wise"); backward_walk(K, pv, m, [&](L k) { return f(src(k)); }); break; }
